@@ -498,6 +498,16 @@ class TaskDispatcher(object):
                     if not nt.loader:
                         nt.loader = DelayedLoaded
                     self.tasks[nt.name] = nt
+                # dependencies of the new tasks must exist
+                # (same check as done by TaskControl for other tasks)
+                for nt in new_tasks:
+                    for kind, deps in (('Task', nt.task_dep),
+                                       ('Setup-task', nt.setup_tasks),
+                                       ('Calc', nt.calc_dep)):
+                        for dep in deps:
+                            if dep not in self.tasks:
+                                msg = "%s. %s dependency '%s' does not exist."
+                                raise InvalidTask(msg % (nt.name, kind, dep))
                 # the same creator might be referenced by other tasks (one
                 # for each name in `creates`), it must not be executed again
                 for other in self.tasks.values():
